@@ -45,7 +45,7 @@ structure FInv (P : Params) (n : Nat) (done : List Blk) (F : FSt) : Prop where
 
 /-- what the block writer's invariant (Proofs/BlockWriter.lean) gives for the blocks `written` so far -/
 structure WInv (P : Params) (written : List Blk) (W : WSt) : Prop where
-  inv : ∃ ps acc recs, BlockWriter.Inv P.pre W.wr ps (written.foldl bOpen false) acc recs ∧
+  inv : ∃ ps acc recs loose, BlockWriter.Inv P.pre W.wr ps (written.foldl bOpen false) acc recs loose ∧
           ∀ b ∈ written, isFB b = true →
             ∃ loc, (b.index, loc, sizeWord b) ∈ W.sets ∧ (⟨loc, [⟨sizeWord b, b.chk, b.data⟩]⟩ : BlockWriter.Rec) ∈ recs
   setsIdx : W.sets.map (·.1) = (written.filter isFB).map (·.index)
